@@ -230,7 +230,9 @@ class Concurrent(Stream):
     def generate(self, rng, tier):
         n = 600 if tier == "quick" else 8000
         return [{"family": "nas_cipher", "goroutines": 8, "iters": n}, {"family": "nas_mac", "goroutines": 8, "iters": n},
-                {"family": "nas_cipher_aes", "goroutines": 16, "iters": 10 * n}, {"family": "nas_mac_aes", "goroutines": 16, "iters": 10 * n}]
+                {"family": "nas_cipher_aes", "goroutines": 16, "iters": 10 * n}, {"family": "nas_mac_aes", "goroutines": 16, "iters": 10 * n},
+                # ciphering by some parties WHILE others compute MACs (NEA1 alongside NIA1, NEA2 alongside NIA2)
+                {"family": "nas_protect", "goroutines": 8, "iters": n // 2}]
 
     def classify(self, c, o):
         return c["family"] + (":same" if o.get("different") == 0 else ":different")
